@@ -10,11 +10,13 @@ Each change was written by a fresh sub-agent that saw only the property text and
 
 Round 1 (19 seeds), first run: 8 caught by the property's own check, 3 by another property's check, 8 missed; after strengthening all 19 are caught.
 Round 2 (19 seeds, each asked to use a different function / clause than round 1), first run: 9 caught by the property's own check, 2 by another property's check only, 1 undecided (ANALYSIS-ERROR, exit 2), 7 missed; after strengthening all 19 are caught by the property's own check.
+Round 3 (19 seeds, each given both earlier attempts and asked for a third function / clause), first run: 8 caught by the property's own check, 4 by another property's check only, 1 undecided (exit 2), 6 missed; after strengthening 18 are caught by the property's own check and 1 (C12-r3) no longer breaks the property on the repaired tree (see its meta.json).
 """
 NOTES = """
 Baseline observations reported by the seeders and triaged by me:
 round 1 - a tag naming the serializer base raised NotImplementedError (C19, fixed 33ebaa4, rule extended); a bound variable with a falsy value was dropped as comparator operand (C01/C02, fixed 1e65682, new rule EP-OPERAND); next_rule over the same variables as the previous branch never fired (C08, fixed d23cb3d, RULE-SELECT key-includes-conclusions).
 round 2 - an attribute-equality join between two variables of one mapped hierarchy raised InvalidRequestError / returned nothing (C07, fixed 35e79d8, SQL-VARID same-hierarchy-join); a relationship path on the non-selected variable of a join is answered on the selected row (C07, the known SQL-VARID finding, second input recorded); interleaved iterators of one rule query suppress each other's results (C03, new rule CARRY-SHARED, known finding); a fresh nested loop over a generator-backed variable truncates (C03, the known CARRY-2 finding); query objects pin the instances they ranged over (C20, the known STRONG-REF roots). While closing the C10 miss LAZY-BUILD reported that building x[key] formats the user key (C10, fixed 8d23fc0).
+round 3 - contains(column, text) translated with LIKE (C07, fixed 36df0dd); a second equality between two joined variables dropped (C07, fixed 6dde094); an equality join inside or_ (C07, fixed fd9c08b); branches written after a first evaluation cut a refinement out of the tree (C08, fixed 1b70461); a bound value under not_ never flagged false (C01, fixed 8854632, a regression of my 1e65682); a falsy symbolic-function result as comparator operand (C12, fixed 4974803); exists() keyed by the quantified variable and silent on failure (C01, fixed 5139c33); for_all over an empty domain raising TypeError (C01, fixed e00fad1); for_all silent about rejected bindings (C01, fixed fbec162); or_ over a predicate call built as the union form (C02, fixed 23eb645); a shared attribute node reporting a stale truth flag (C01, fixed 274cad8); an alternative after a next_rule firing although the base fired (C08, known finding). Not acted on: IndexError for x.items[0] on an empty list (arguably correct), a bare variable as a condition, hasattr probes on user values during construction (listed as an assumption of C10), builtin-typed collections in match patterns (outside the documented grammar).
 """
 
 
@@ -33,7 +35,7 @@ def row(d):
 def main():
     dirs = sorted(d for d in os.listdir(ROOT) if os.path.isdir(os.path.join(ROOT, d)))
     out = [HEAD]
-    for title, sel in (("Round 1", [d for d in dirs if not d.endswith("-r2")]), ("Round 2", [d for d in dirs if d.endswith("-r2")])):
+    for title, sel in (("Round 1", [d for d in dirs if "-r" not in d]), ("Round 2", [d for d in dirs if d.endswith("-r2")]), ("Round 3", [d for d in dirs if d.endswith("-r3")])):
         out.append(f"\n## {title}\n\n| seed | change (one line) | needs to manifest | caught by (rules) | first run |\n|---|---|---|---|---|")
         out += [row(d) for d in sel]
     out.append(NOTES)
